@@ -157,4 +157,6 @@ def exotic_shapes() -> list[Any]:
         R("VMany", items=(R("VMixLeaf"), R("VSlot", kid=L()), R("VFlags", {"h": 1}), R("VDiamond"))),
         R("VSlot", kid=R("VTwoSeq", left=(L(),), right=(L(), L()))),
         R("VNcKid", kid=L(), trivia=(L(), R("VNcKid", kid=L())), main=L()),  # child fields declared compare=False
+        R("VKids", func=R("VKids", func=L(), children=(L(),)), children=()),  # a child field named `children`, empty while another child field is set
+        R("VMany", items=(R("VKids", func=L(), children=()), R("VKids", func=None, children=(L(), L())))),
     )]
